@@ -21,6 +21,8 @@ static unsigned long total_allocs;
 static struct { FILE *fp; const char *func; int line; } files[MAXFILES];
 static unsigned long nfiles;
 
+#define TRACEMAX 8192
+static struct { const char *func; int line; const char *kind; } trace[TRACEMAX];
 static long oom_k;                 /* 0 = off */
 static unsigned long oom_count;    /* failable allocations seen since vm_set_oom */
 static const char *fail_func;
@@ -89,6 +91,7 @@ static int inject(const char *file, const char *func, int line, const char *kind
 {
 	if (strcmp(base(file), "confuse.c") != 0)
 		return 0;
+	if (oom_count < TRACEMAX) { trace[oom_count].func = func; trace[oom_count].line = line; trace[oom_count].kind = kind; }
 	oom_count++;
 	if (oom_k && (long)oom_count == oom_k) {
 		fail_func = func; fail_line = line; fail_kind = kind;
@@ -235,4 +238,13 @@ void vm_forget_all(void)
 	size_t i;
 	for (i = 0; i < tabsz; i++) tab[i].p = NULL;
 	tabused = 0; nlive = 0; nfiles = 0;
+}
+
+void vm_trace_report(FILE *out)
+{
+	unsigned long i, n = oom_count < TRACEMAX ? oom_count : TRACEMAX;
+	fputc('[', out);
+	for (i = 0; i < n; i++)
+		fprintf(out, "%s[\"%s\",%d,\"%s\"]", i ? "," : "", trace[i].func, trace[i].line, trace[i].kind);
+	fputc(']', out);
 }
